@@ -160,7 +160,10 @@ func runCheck(repo, prop, tier string, rest []string) int {
 		ctr := e.ctrs[k]
 		fn := e.funcs[k]
 		if fn == nil {
-			c.fatal = append(c.fatal, fmt.Sprintf("contract target missing: %s (%s)", k, ctr.File))
+			// the function the contract speaks about no longer exists (renamed / removed / closure restructured):
+			// the clause cannot be discharged; reported as an undischarged obligation, not as a pass
+			c.direct = append(c.direct, &directResult{Name: k + "/contract/target-missing", OK: false,
+				Detail: fmt.Sprintf("the contract at %s names function %s, which does not exist in the current tree; its obligations cannot be generated", ctr.File, k)})
 			continue
 		}
 		if ctr.Trusted {
